@@ -240,7 +240,7 @@ def run_workers(exe, engine, tier, seed, tmpdir):
     nworkers = min(JOBS, engine.get("max_workers", JOBS))
     base = [exe, "--seed", str(seed), "--runs", str(runs), "--budget", str(budget)]
     if tier == "thorough":
-        base += ["--thorough", "--distinct-sample", str(engine.get("distinct_sample", 16))]
+        base += ["--thorough", "--distinct-sample", str(engine.get("distinct_sample", 64))]
     ee = engine.get("enum_every", {}).get(tier, 0)
     if ee:
         base += ["--enum-every", str(ee)]
